@@ -248,6 +248,21 @@ def run_shapes(W, cfg):
                 W.ob(f'mirror (columns) [{i},{j}]', z[i, j2], z[i, j])
             if 0 <= i2 < shp[0]:
                 W.ob(f'mirror (rows) [{i},{j}]', z[i2, j], z[i, j])
+    def spider_ok():
+        import numpy as _np
+        sh = _np.array([1.0, -2.0])
+        keep_sh = sh.copy()
+        for aa_ in (True, False):
+            a1 = _np.asarray(W.lentil.spider((9, 11), 2, angle=30, shift=sh, antialias=aa_), dtype=float)
+            a2 = _np.asarray(W.lentil.spider((9, 11), 2, angle=30, shift=sh, antialias=aa_), dtype=float)
+            a3 = _np.asarray(W.lentil.spider((9, 11), 2, angle=30, shift=(1.0, -2.0), antialias=aa_), dtype=float)
+            if not (_np.array_equal(a1, a2) and _np.array_equal(a1, a3) and _np.array_equal(sh, keep_sh)):
+                return False
+            if a1.min() < 0 or a1.max() > 1:
+                return False
+        return True
+    if kind == 'circle' and shp == (3, 3) and aa:
+        W.ob_concrete('spider: a shift array kept by the caller is left alone and gives the same drawing every time, values in [0, 1]', spider_ok)
     # drawn once more with the first arguments, after the other drawings of this configuration: the same samples
     m3 = _draw(lt, kind, shp, size, s, aa)
     for (i, j) in probe:
@@ -272,6 +287,9 @@ def cfg_hex(tier, seed):
     for R, rot, rings in ((4, False, 1), (4, True, 1), (3, False, 2), (5, True, 1), (4.5, False, 1), (2.5, True, 2)):
         out.append({'what': 'count', 'rings': rings, 'rotate': rot, 'drop': [], 'R': R, 'g': 0})
     out.append({'what': 'count', 'rings': 2, 'rotate': True, 'drop': [5], 'R': 4})
+    out.append({'what': 'count', 'rings': 2, 'rotate': False, 'drop': [0, 3, 3]})
+    out.append({'what': 'count', 'rings': 1, 'rotate': True, 'drop': [5, 99]})
+    out.append({'what': 'count', 'rings': 1, 'rotate': False, 'drop': [0, 0]})
     for c in out:
         if c['what'] == 'count':
             c['_concrete'] = 1          # no symbolic input: counted as concrete-only obligations on the real code
@@ -286,7 +304,11 @@ def run_hex(W, cfg):
         R, g = cfg.get('R', 2.5), cfg.get('g', 0.5)
         m = lt.hex_segments(rings, R, g, rotate=rot, antialias=False, drop=tuple(cfg['drop']), pad=2)
         m = W.concrete(m)
-        nseg = 1 + 3 * rings * (rings + 1) - len(cfg['drop'])
+        total_ = 1 + 3 * rings * (rings + 1)
+        nseg = total_ - len({d for d in cfg['drop'] if 0 <= d < total_})          # a segment named twice, or one that does not exist, is dropped once / not at all
+        full_ = W.concrete(lt.hex_segments(rings, R, g, rotate=rot, antialias=False, drop=(), pad=2))
+        keep_ = [k for k in range(total_) if k not in cfg['drop']]
+        W.ob_true('the kept segments are the full aperture\'s segments minus the dropped ones, in order', m.shape[0] == len(keep_) and all((m[i] == full_[k]).all() for i, k in enumerate(keep_)))
         W.ob_true('1 + 3k(k+1) - dropped segments', m.shape[0] == nseg)
         W.ob_true('square array', m.shape[1] == m.shape[2])
         flat = m.sum(axis=0)
